@@ -137,6 +137,38 @@ pub struct CteSpec {
     pub cols: Vec<u8>,
     pub materialized: Option<bool>,
     pub query: Box<SelectSpec>,
+    /// build through `CommonTableExpression::from_select` (the column list is derived from the select list; `cols` is not used)
+    #[serde(default)]
+    pub derive: bool,
+}
+
+impl CteSpec {
+    /// the column list the CTE must be written with
+    pub fn effective_cols(&self) -> Vec<String> {
+        if !self.derive {
+            return self.cols.iter().map(|x| QCOLS[*x as usize % 5].to_string()).collect();
+        }
+        // documented rule of from_select / try_set_cols_from_select: the alias, else the column name, else table_column;
+        // any other select item leaves the CTE without a column list
+        let names: Option<Vec<String>> = self
+            .query
+            .items
+            .iter()
+            .map(|it| {
+                if let Some(a) = it.alias {
+                    return Some(ITEM_ALIASES[a as usize % 4].to_string());
+                }
+                match &it.e {
+                    E::Col(i) => Some(crate::expr_spec::COLS[*i as usize % 4].to_string()),
+                    E::TCol(i) => Some(format!("tt_{}", crate::expr_spec::COLS[*i as usize % 4])),
+                    E::QCol(t, c) => Some(format!("{}_{}", QUALS[*t as usize % 8], QCOLS[*c as usize % 5])),
+                    E::AliasRef(i) => Some(ITEM_ALIASES[*i as usize % 4].to_string()),
+                    _ => None,
+                }
+            })
+            .collect();
+        names.unwrap_or_default()
+    }
 }
 
 #[derive(Clone, Debug, PartialEq, Eq, Hash, Serialize, Deserialize)]
@@ -404,15 +436,20 @@ pub fn build_with(w: &WithSpec, d: Dialect) -> WithClause {
     let mut wc = WithClause::new();
     wc.recursive(w.recursive);
     for c in &w.ctes {
-        let mut cte = CommonTableExpression::new();
+        let mut cte = if c.derive {
+            CommonTableExpression::from_select(build_select(&c.query, d))
+        } else {
+            let mut cte = CommonTableExpression::new();
+            for col in &c.cols {
+                cte.column(al(QCOLS[*col as usize % 5]));
+            }
+            cte.query(build_select(&c.query, d));
+            cte
+        };
         cte.table_name(al(QUALS[6 + c.name as usize % 2]));
-        for col in &c.cols {
-            cte.column(al(QCOLS[*col as usize % 5]));
-        }
         if let Some(m) = c.materialized {
             cte.materialized(m);
         }
-        cte.query(build_select(&c.query, d));
         wc.cte(cte);
     }
     if let Some((breadth, col)) = w.search {
